@@ -486,7 +486,7 @@ func (s *Sched) dispatch(self *T) {
 
 // pick records a branching point and returns the alternative to take.
 func (s *Sched) pick(n int, free bool, kind byte, label func() string) int {
-	if n <= 1 || !s.window {
+	if n <= 1 || (!s.window && kind != 'c') {
 		return 0
 	}
 	i := len(s.trace)
